@@ -5,6 +5,7 @@ the kernel's resume rule, and runs of arbitrary programs over arbitrary process 
 decision functions.  PROPERTY THEOREMS ONLY (helper lemmas are private).
 -/
 import GoSandbox.Model.Verdict
+import GoSandbox.Model.SeccompGen
 namespace GoSandbox.Props.C03
 open GoSandbox.Model.Verdict
 
@@ -173,5 +174,17 @@ example :
     runOps [Kind.fork, .vfork, .clone] d
       [⟨[], 0, .allow⟩, ⟨[.fork], 1, .trace⟩, ⟨[.fork, .clone], 2, .trace⟩, ⟨[.vfork], 3, .trace⟩, ⟨[.clone], 4, .trace⟩, ⟨[], 5, .allow⟩] {} =
     { effects := [0, 1, 3], rets := [(2, -13)], status := .disallowed } := by decide
+
+/-- **a call the filter kills ends the whole program, not one thread** (regenerated `ToSeccompAction`,
+kernel-evaluated): the library's kill action — named, unset (0) or unknown — is compiled to
+SECCOMP_RET_KILL_PROCESS, which is not the thread-only kill: a multi-threaded program cannot lose one
+thread to the filter and carry on (its exit would then be reported instead of Disallowed Syscall) -/
+theorem C03_gen_filter_kill_is_process_wide :
+    [Int.ofNat Gen.Consts.ActionKill, 0, 77].all (fun a =>
+      match Model.SeccompGen.runAction a with
+      | .ok r => r == Int.ofNat Gen.Consts.libseccomp_ActionKillProcess
+      | .error _ => false) = true ∧
+    Gen.Consts.libseccomp_ActionKillProcess ≠ Gen.Consts.libseccomp_ActionKillThread := by
+  constructor <;> decide +kernel
 
 end GoSandbox.Props.C03
